@@ -147,6 +147,10 @@ def r02_2(ctx: Ctx):
             seen_cases.add(sg)
             exp = expected(sg)
             got = val
+            # max(idx_l, idx_c) / min(...) are one of the two indices in each case
+            pair = frozenset({e.il.key(), e.ic.key()})
+            hi, lo = {'zero': (e.ic, e.ic), 'neg': (e.ic, e.il), 'pos': (e.il, e.ic)}[sg]
+            got = C.subst_val(got, {('max', pair): key_of(hi), ('min', pair): key_of(lo)})
             if sg == 'zero':   # under idx_l == idx_c both names of the index are the same value
                 m = {key_of(e.il): key_of(e.ic)}
                 got, exp = C.subst_val(got, m), C.subst_rf(exp, m)
